@@ -125,8 +125,8 @@ fn tok_atom(rng: &mut Rng, v: &Vocab) -> Atom {
         0 => {
             // <name>
             let s = *rng.pick(&v.specials);
-            let name = String::from_utf8_lossy(&v.words[s as usize][1..]).to_string();
-            if name.contains(' ') || name.contains('"') || v.words[s as usize].is_empty() {
+            let name = String::from_utf8_lossy(v.words[s as usize].get(1..).unwrap_or(&[])).to_string();
+            if name.is_empty() || name.contains(' ') || name.contains('"') || name.contains('[') {
                 let id = pick(rng);
                 return Atom::Toks(format!("<[{id}]>"), [id].into_iter().collect());
             }
@@ -213,9 +213,11 @@ fn ref_case(ctx: &mut Ctx, idx: u64) {
     ctx.rep.inc("ref_cases");
     let mut live: Vec<usize> = (0..n_alt).collect();
     let mut hist: Vec<u32> = vec![];
+    // a committed token that belongs to two different token-range lexemes of different alternatives
+    let mut overlap_earlier = false;
     macro_rules! viol {
         ($kind:expr, $detail:expr) => {{
-            let d = json!({"grammar": text, "vocab": v.name, "n_vocab": v.n(), "history": hist, "oracle": $detail});
+            let d = json!({"grammar": text, "vocab": v.name, "n_vocab": v.n(), "history": hist, "token_matched_two_different_ranges_earlier": overlap_earlier, "oracle": $detail});
             let rp = ctx.replay(idx);
             ctx.rep.violation($kind, &g.tags, d, rp);
             return;
@@ -283,6 +285,11 @@ fn ref_case(ctx: &mut Ctx, idx: u64) {
                 }
                 hist.push(t);
                 live.retain(|&a| matches!(&alts[a][pos], Atom::Toks(_, s) if s.contains(&t)));
+                let names: BTreeSet<String> = live.iter().map(|&a| match &alts[a][pos] { Atom::Toks(n, _) => n.clone(), _ => String::new() }).collect();
+                if names.len() >= 2 {
+                    overlap_earlier = true;
+                    ctx.rep.inc("overlapping_range_commits");
+                }
                 if t == v.eos {
                     // the EOS id consumed as an ordinary token: nothing more to compare reliably
                 }
